@@ -35,6 +35,7 @@ func runC19(l *core.Ledger) {
 	l.Rule("C19-S1", "each provided sort key (package-level var of the sorter's less-func type) is a strict weak order: irreflexive, asymmetric, transitive, incomparability transitive — decided exhaustively over the abstract domain of the projections it compares")
 	l.Rule("C19-S4", "the provided keys order by what their names promise: ID and Port increasing over an integer projection (the port number, not its text), LastNodeError nodes without an error first")
 	l.Rule("C19-S2", "MultiSorter.Less combines the keys lexicographically: returns true on less(p,q), false on less(q,p) for all keys but the last in order from key 0, and the last key's less(p,q) otherwise; p,q = elements i,j of the slice being sorted")
+	l.Rule("C19-S7", "the empty key sequence is handled: the final comparison ms.less[k] of Less is dominated by the not-empty edge of a test of len(ms.less), and on the empty edge Less answers false")
 	l.Rule("C19-S3", "Sort stores its argument and calls sort.Sort on the receiver; Swap exchanges exactly elements i and j; Len is the length of that slice; no other function writes MultiSorter.nodes")
 	l.Rule("C19-S5", "what the keys project is what the node is: RawNode.Port (the Port key's projection) returns the port that net.SplitHostPort gives for the node's address (or a field filled from it / from the resolved TCP address); the LastNodeError key orders by the documented LastErr() status: its projection is LastErr() itself or the expression LastErr() returns")
 	l.Rule("C19-S6", "the provided keys are total over nodes built through the public constructors: a node has no channel before it is added to a manager and under WithNoConnect, so every use of a node's channel pointer reachable from a key (as a receiver or for a field) is dominated by a nil test of it")
@@ -725,12 +726,74 @@ func c19S2(l *core.Ledger, r *rt) {
 	}
 	nret := 0
 	okAll := true
+	// the empty key sequence: OrderedBy is variadic, so OrderedBy() is a legal call. With no
+	// keys every pair of nodes is equal: Less answers false before it touches ms.less[k]
+	var emptyEdges, nonEmptyEdges []sx.Edge
+	sx.AllInstrs(fn, func(_ sx.Node, in ssa.Instruction) {
+		ifi, ok := in.(*ssa.If)
+		if !ok {
+			return
+		}
+		v, pos := condOf(ifi)
+		b, ok := v.(*ssa.BinOp)
+		if !ok {
+			return
+		}
+		call, isCall := b.X.(*ssa.Call)
+		k, isConst := b.Y.(*ssa.Const)
+		if !isCall || !isConst || k.Value == nil {
+			return
+		}
+		bi, isB := call.Call.Value.(*ssa.Builtin)
+		if !isB || bi.Name() != "len" || !sx.All(sx.Origins(call.Call.Args[0]), sx.IsFieldNamed("less", sx.IsParam(ms))) {
+			return
+		}
+		kv, exact := constant.Int64Val(constant.ToInt(k.Value))
+		if !exact {
+			return
+		}
+		emptyWhenTrue, known := false, true
+		switch {
+		case b.Op == token.EQL && kv == 0, b.Op == token.LSS && kv == 1, b.Op == token.LEQ && kv == 0:
+			emptyWhenTrue = true
+		case b.Op == token.NEQ && kv == 0, b.Op == token.GTR && kv == 0, b.Op == token.GEQ && kv == 1:
+			emptyWhenTrue = false
+		default:
+			known = false
+		}
+		if !known {
+			return
+		}
+		t, f := sx.CondEdges(ifi)
+		if !pos {
+			t, f = f, t
+		}
+		if emptyWhenTrue {
+			emptyEdges, nonEmptyEdges = append(emptyEdges, t), append(nonEmptyEdges, f)
+		} else {
+			emptyEdges, nonEmptyEdges = append(emptyEdges, f), append(nonEmptyEdges, t)
+		}
+	})
+	for _, c := range calls {
+		if sx.InLoop(sx.NodeOf(c.c)) {
+			continue // k < len(less)-1 implies a key exists
+		}
+		l.Check(edgesDominate(fn, nonEmptyEdges, sx.NodeOf(c.c)), "C19-S7", key+"/no-keys", c.c.Pos(), "the final comparison ms.less[k] is reached only when there is a key", "with no keys (OrderedBy() - the function is variadic) the loop does not run and the final comparison indexes the empty key slice: Sort panics for every slice of two or more nodes instead of leaving them in some order")
+	}
 	sx.AllInstrs(fn, func(n sx.Node, in ssa.Instruction) {
 		ret, ok := in.(*ssa.Return)
 		if !ok {
 			return
 		}
 		nret++
+		if len(emptyEdges) > 0 && edgesDominate(fn, emptyEdges, n) {
+			if k, isK := ret.Results[0].(*ssa.Const); isK && k.Value != nil && !constant.BoolVal(k.Value) {
+				return // no keys: all nodes are equal
+			}
+			okAll = false
+			l.Bad("C19-S2", key+"/no-keys", ret.Pos(), "with no keys Less must answer false (all nodes are equal); it answers something else")
+			return
+		}
 		os := sx.Origins(ret.Results[0])
 		for _, o := range os {
 			switch {
